@@ -106,7 +106,10 @@ def make_comparisons(case, tick=TICK):
     if case["fam"] == "vector":
         lv = r["QuantityVector"]([build_operand(o, tick) for o in case["l"]])
         rv = r["QuantityVector"]([build_operand(o, tick) for o in case["r"]])
-        calls.append(("assert_equal_vectors", lambda: r["assert_equal_vectors"](lv, rv, **kw)))
+        kwv = dict(kw)
+        if case["dimarg"]:
+            kwv["dimension"] = dim_expr(case["dimarg"])
+        calls.append(("assert_equal_vectors", lambda: r["assert_equal_vectors"](lv, rv, **kwv)))
         return calls
     lo, ro = case["l"][0], case["r"][0]
     lhs, rhs = build_operand(lo, tick), build_operand(ro, tick)
@@ -232,7 +235,7 @@ def random_record(rng: random.Random):
         lops.append({"k": "qty", "re": b, "im": ib, "d": ld})
         rops.append({"k": "qty", "re": value_near(b), "im": value_near(ib) if cplx else 0, "d": rd})
     fam = "scalar"
-    dimarg = []
+    dimarg = rng.choice([ld, rd]) if rng.random() < 0.15 else []      # also supplied when rhs is a quantity
     if n > 1:
         fam = "vector"
         if rng.random() < 0.2:
